@@ -765,27 +765,154 @@ func (c *FnCtx) reaches(a, b *ssa.BasicBlock) bool {
 	return dfs(a)
 }
 
-// ---------- channels (no ghost histories yet: values received are arbitrary)
+// ---------- channels
+// A channel stored in a struct field may carry a contract "chan:<Struct>.<field>.recv" / ".send"
+// (env: recv = the struct, r0 = received value, p0 = sent value). Without one, received values
+// are arbitrary well-typed values. Blocking, capacity and fairness are not modelled.
 
-func (c *FnCtx) chanMods(ch ssa.Value, out map[string]bool) {}
+type chanOrigin struct {
+	owner Term
+	st    types.Type
+	field string
+}
+
+func (c *FnCtx) chanOrigin(ch ssa.Value) *chanOrigin {
+	u, ok := ch.(*ssa.UnOp)
+	if !ok || u.Op != token.MUL {
+		return nil
+	}
+	fa, ok := u.X.(*ssa.FieldAddr)
+	if !ok {
+		return nil
+	}
+	st := fa.X.Type().Underlying().(*types.Pointer).Elem()
+	n, ok := st.(*types.Named)
+	if !ok {
+		return nil
+	}
+	owner, ok := c.vals[fa.X]
+	if !ok {
+		if _, isLoc := c.locs[fa.X]; isLoc {
+			return nil
+		}
+		owner = c.v(fa.X)
+	}
+	return &chanOrigin{owner: owner, st: types.NewPointer(st), field: n.Obj().Name() + "." + st.Underlying().(*types.Struct).Field(fa.Field).Name()}
+}
+
+func (c *FnCtx) chanSpec(ch ssa.Value, op string) (*FuncSpec, *chanOrigin) {
+	o := c.chanOrigin(ch)
+	if o == nil {
+		return nil, nil
+	}
+	return c.g.specs.Funcs["chan:"+o.field+"."+op], o
+}
+
+func (c *FnCtx) chanEnv(o *chanOrigin, name string, val Term, vt types.Type, st, old *State) *Env {
+	env := &Env{vars: map[string]TV{}, st: st, oldSt: old}
+	env.vars["recv"] = TV{T: o.owner, Ty: o.st}
+	if name != "" {
+		env.vars[name] = TV{T: val, Ty: vt}
+	}
+	return env
+}
+
+func (c *FnCtx) chanMods(ch ssa.Value, out map[string]bool) {
+	// static: any channel contract's assigns (dry evaluation)
+	u, ok := ch.(*ssa.UnOp)
+	if !ok {
+		return
+	}
+	fa, ok := u.X.(*ssa.FieldAddr)
+	if !ok {
+		return
+	}
+	st := fa.X.Type().Underlying().(*types.Pointer).Elem()
+	n, ok := st.(*types.Named)
+	if !ok {
+		return
+	}
+	fname := n.Obj().Name() + "." + st.Underlying().(*types.Struct).Field(fa.Field).Name()
+	for _, op := range []string{"recv", "send"} {
+		spec := c.g.specs.Funcs["chan:"+fname+"."+op]
+		if spec == nil {
+			continue
+		}
+		saveDecl, saveDecls, saveFresh := c.declared, c.decls, c.fresh
+		nd := map[string]bool{}
+		for k, v := range c.declared {
+			nd[k] = v
+		}
+		c.declared = nd
+		env := &Env{vars: map[string]TV{"recv": {T: "0", Ty: types.NewPointer(st)}}, st: &State{m: map[string]Term{}, havoc: true}}
+		ts, err := c.assignTargets(spec, env)
+		c.declared, c.decls, c.fresh = saveDecl, saveDecls, saveFresh
+		if err == nil {
+			for _, t := range ts {
+				out[t.comp] = true
+			}
+		}
+	}
+}
 
 func (c *FnCtx) chanSend(ch, x ssa.Value, pos token.Pos) {
 	_ = c.v(ch)
-	_ = c.v(x)
+	val := c.v(x)
+	spec, o := c.chanSpec(ch, "send")
+	if spec == nil {
+		return
+	}
+	c.trusted[spec.Name] = true
+	pre := c.snapshot()
+	env := c.chanEnv(o, "p0", val, x.Type(), pre, nil)
+	for k, r := range spec.Requires {
+		ob := c.oblig(fmt.Sprintf("%s/send:%s/pre#%d", c.name, o.field, k+1), "pre", c.g.posStr(pos), false)
+		ob.Desc = r.Text
+		c.assertG(ob, c.mustClause(r, env), c.mustGoal(r, env))
+	}
+	ts, err := c.assignTargets(spec, env)
+	if err != nil {
+		panic(unsupported(err.Error()))
+	}
+	c.havocTargets(ts)
+	envPost := c.chanEnv(o, "p0", val, x.Type(), c.st, pre)
+	for _, e := range spec.Ensures {
+		c.assume(c.mustClause(e, envPost))
+	}
 }
 
 func (c *FnCtx) chanClose(ch ssa.Value, pos token.Pos) {}
 
 func (c *FnCtx) chanRecv(x *ssa.UnOp) {
+	var val Term
+	var vt types.Type
 	if x.CommaOk {
 		tup := x.Type().(*types.Tuple)
-		a := c.freshConst(c.regName(x)+"$v", c.sortOf(tup.At(0).Type()))
+		vt = tup.At(0).Type()
+		val = c.freshConst(c.regName(x)+"$v", c.sortOf(vt))
 		b := c.freshConst(c.regName(x)+"$ok", "Bool")
-		c.assume(c.tyInv(a, tup.At(0).Type()))
-		c.tuples[x] = []Term{a, b}
+		c.assume(c.tyInv(val, vt))
+		c.tuples[x] = []Term{val, b}
+	} else {
+		val = c.defFresh(x)
+		vt = x.Type()
+	}
+	spec, o := c.chanSpec(x.X, "recv")
+	if spec == nil {
 		return
 	}
-	c.defFresh(x)
+	c.trusted[spec.Name] = true
+	pre := c.snapshot()
+	env := c.chanEnv(o, "", "", nil, pre, nil)
+	ts, err := c.assignTargets(spec, env)
+	if err != nil {
+		panic(unsupported(err.Error()))
+	}
+	c.havocTargets(ts)
+	envPost := c.chanEnv(o, "r0", val, vt, c.st, pre)
+	for _, e := range spec.Ensures {
+		c.assume(c.mustClause(e, envPost))
+	}
 }
 
 func (c *FnCtx) selectStmt(x *ssa.Select) {
@@ -804,5 +931,59 @@ func (c *FnCtx) selectStmt(x *ssa.Select) {
 		ts = append(ts, a)
 	}
 	c.tuples[x] = ts
+	// contracts of the receive cases, each conditional on the chosen index
+	type rc struct {
+		i    int
+		spec *FuncSpec
+		o    *chanOrigin
+		val  Term
+		vt   types.Type
+		tgts []target
+	}
+	var rcs []rc
+	k := 2
+	pre := c.snapshot()
+	for i, st := range x.States {
+		if st.Dir != types.RecvOnly {
+			continue
+		}
+		val, vt := ts[k], tup.At(k).Type()
+		k++
+		spec, o := c.chanSpec(st.Chan, "recv")
+		if spec == nil {
+			continue
+		}
+		c.trusted[spec.Name] = true
+		env := c.chanEnv(o, "", "", nil, pre, nil)
+		tg, err := c.assignTargets(spec, env)
+		if err != nil {
+			panic(unsupported(err.Error()))
+		}
+		rcs = append(rcs, rc{i, spec, o, val, vt, tg})
+	}
+	if len(rcs) == 0 {
+		return
+	}
+	changedBy := map[string][]int{}
+	var all []target
+	for _, r := range rcs {
+		for _, t := range r.tgts {
+			changedBy[t.comp] = append(changedBy[t.comp], r.i)
+			all = append(all, target{t.comp, ""})
+		}
+	}
+	c.havocTargets(all)
+	for comp, is := range changedBy {
+		var conds []Term
+		for _, i := range is {
+			conds = append(conds, not(eq(idx, num(int64(i)))))
+		}
+		c.assume(implies(and(conds...), eq(c.get(c.st, comp), c.get(pre, comp))))
+	}
+	for _, r := range rcs {
+		envPost := c.chanEnv(r.o, "r0", r.val, r.vt, c.st, pre)
+		for _, e := range r.spec.Ensures {
+			c.assume(implies(eq(idx, num(int64(r.i))), c.mustClause(e, envPost)))
+		}
+	}
 }
-
